@@ -56,6 +56,10 @@ def as_found_models(wd):
     r = C.model_check("DotChainMC", dot2 + "CONSTANT AsFoundChain <- AsFoundF27\n", os.path.join(wd, "af-dot-f27"), workers=4, xmx="4g", timeout=900)
     expect("DotChainMC with F27 as found (attached comments not spaced) violates InvConvergence",
            (not r["ok"]) and "Invariant InvConvergence is violated" in r["out"])
+    md = beh.MODE_CFG % (2, 30, 2, "FALSE", "InvBreakSafety")
+    r = C.model_check("ModeMC", md.replace("AsFoundM = {}", 'AsFoundM = {"CbKeepsMode"}'), os.path.join(wd, "af-mode"), workers=4, xmx="4g", timeout=900)
+    expect("ModeMC with a content block that keeps its caller's mode (seeded change C04-C) violates InvBreakSafety",
+           (not r["ok"]) and "Invariant InvBreakSafety is violated" in r["out"])
     cm = beh.COMMENT_CFG % (2, "0, 1, 3, 6", 16, 2, "FALSE", "InvConvergence")
     r = C.model_check("CommentMC", cm.replace("AsFoundC = {}", 'AsFoundC = {"S03A"}'), os.path.join(wd, "af-cmt"),
                       workers=4, xmx="4g", timeout=900)
